@@ -108,16 +108,21 @@ def commandSet (tab : Option Table) (id : Id) (cmd : Option Hnd) (arg : Nat) : O
 /- ---------- dispatch_set.c ---------- -/
 /-- `mpt_dispatch_set(disp, id, cmd, arg)` -/
 def dispatchSet (d : Disp) (id : Id) (cmd : Option Hnd) (arg : Nat) : Disp × Int × List LogE :=
-  match commandGet d.tab id, cmd, d.tab with
-  | none, none, _ => (d, Err.BadArgument.code, [])
-  | some (i, s), none, some t =>
-    -- clear registration: finalise, then `cmd = 0, arg = 0`; the position is returned
-    ({ d with tab := some { t with slots := t.slots.set i { s with cmd := none, arg := 0 } } }, i, finalise s)
-  | some _, none, none => (d, Err.BadArgument.code, [])
-  | some _, some _, _ => (d, Err.BadArgument.code, [])      -- id already used
-  | none, some c, _ =>
-    let r := commandSet d.tab id (some c) arg
-    ({ d with tab := r.1 }, r.2.1, r.2.2)
+  match cmd with
+  | none =>
+    -- clear registration
+    match commandGet d.tab id with
+    | none => (d, Err.BadArgument.code, [])
+    | some (i, s) =>
+      -- finalise, then `cmd = 0, arg = 0`; the position is returned
+      ({ d with tab := d.tab.map fun t => { t with slots := t.slots.set i { s with cmd := none, arg := 0 } } }, i, finalise s)
+  | some c =>
+    match commandGet d.tab id with
+    | some _ => (d, Err.BadArgument.code, [])      -- id already used
+    | none =>
+      -- register command
+      let r := commandSet d.tab id (some c) arg
+      ({ d with tab := r.1 }, r.2.1, r.2.2)
 
 /- ---------- dispatch_finit.c ---------- -/
 /-- `mpt_dispatch_fini(disp)` -/
@@ -229,6 +234,12 @@ def hashId (msg : List Byte) : HashId :=
           let len := if sep = 0 ∧ base[len - 1]? = some 0 then len - 1 else len
           .id (mptHash (base.take len))
   | _ => .fail                                 -- missing message header / type
+
+/-- the modelled domain of command messages: the separator is 0 or a graphic character -/
+def hashInDomain (msg : List Byte) : Bool :=
+  match msg with
+  | ty :: arg :: _ => !(ty == msgCommand && arg != 0 && !isGraph arg)
+  | _ => true
 
 /-- `mpt_dispatch_hash(disp, ev)` with a message -/
 def dispatchHash (d : Disp) (msg : List Byte) (res : HRes) : Out :=
@@ -402,6 +413,11 @@ def step (s : St) (op : Op) : St × Out :=
   | .fini =>
     let r := dispatchFini s.d
     ({ s with d := r.1 }, ⟨.val 0, r.2⟩)
+
+/-- operations inside the modelled domain -/
+def inDomain : Op → Bool
+  | .hash msg _ => hashInDomain msg
+  | _ => true
 
 /-- state after a history and the outcomes it produced -/
 def runFrom (s : St) : List Op → St × List (Op × Out)
